@@ -24,6 +24,8 @@
     pgen.assigntz <n0|N> <n1|N> <tzname|N>             _assign_tzname on a fold-0 datetime -> fold
     pgen.numtok <info> <year> <century> <fuzzy> <idx> <tok;tok;…> <classes of all tokens> <ymd v,v|century|d|m|y> <res.hour|->
                                                        _parse_numeric_token -> idx ; ymd ; hour minute second microsecond
+    pgen.naive <year|-> <month|-> <day|-> <weekday|-> <hour|-> <minute|-> <second|-> <microsecond|-> <default [7 ints]>
+                                                       _build_naive -> Y M D h m s us
     pgen.step <info> <year> <century> <fuzzy> <i> <tok;tok;…> <classes> <ymd> <hour|-> <ampm|-> <tzname|N> <tzoffset|->
         one iteration of the `while` body of parser._parse
         -> i ; tokens ; weekday hour minute second microsecond ampm tzname tzoffset ; ymd ; skipped
@@ -182,6 +184,12 @@ def handleFn (op : String) (args : List String) : Option String :=
         let rs := r.2.2.1
         s!"{r.2.1} ; {";".intercalate (r.1.map showCps)} ; {showON rs.weekday} {showON rs.hour} {showON rs.minute} {showON rs.second} {showON rs.microsecond} {showON rs.ampm} {showOptName rs.tzname} {showOI rs.tzoffset} ; {showYmd r.2.2.2.1} ; {",".intercalate (r.2.2.2.2.map toString)}")
       (Gen.P.parseStep cls i l idx l.length { hour := hour, ampm := ampm, tzname := tzn, tzoffset := tzo } ymd [] (fz == "1")))
+  | "pgen.naive", [y, m, d, wd, hh, mm, ss, us, dflt] => do
+    let y ← optNat? y; let m ← optNat? m; let d ← optNat? d; let wd ← optNat? wd
+    let hh ← optNat? hh; let mm ← optNat? mm; let ss ← optNat? ss; let us ← optNat? us
+    let t ← (parseIntList? dflt).bind DT.ofList?
+    some (showR DT.wire (Gen.P.buildNaive Ops.ParserGen.dflt
+      { year := y, month := m, day := d, weekday := wd, hour := hh, minute := mm, second := ss, microsecond := us } t))
   | "pgen.assigntz", [n0, n1, name] => do
     let a ← optName? n0; let b ← optName? n1; let n ← optName? name
     some (showR (fun d : PPy.FoldDt => toString d.fold) (Gen.P.assignTzname dflt { n0 := a, n1 := b } n))
